@@ -4,7 +4,45 @@ Contracts on every verdict function of State / Povm / Gate / MProcess (and the
 matrix_util helpers): the post-condition recomputes the violation sizes of the
 denoted operators with the reference model and applies the three-zone rule
 (must accept <= atol/10, must reject >= 10 atol, free in between).
+
+History / combination steps (class History; every case ends with them, own RNG
+stream ctx.rng(1), so the first-pass inputs and digests are what they were):
+the oracles stay the hooks (each verdict call is judged against the reference
+model of the raw arrays the object holds *at the time of the call*), the steps
+only create histories through the public API:
+  second-call      other public methods of the same object (conversions,
+                   projections, arithmetic), then its verdicts again: tolerances
+                   descending, inequality before equality, is_physical with two
+                   DIFFERENT tolerances given by keyword
+  second-setting   two more Settings.set_atol windows on the same object
+  via-copy / after-set_zero / after-setter
+                   copy() (or the object the constructor returned with
+                   physicality required): asked, set_zero(), asked again, its
+                   copy asked; set_mode_proj_order / eps_truncate_imaginary_part /
+                   MProcess.set_mode_sampling between two queries of one object
+  via-generate_from_var / via-arithmetic / via-pickle / derived-object
+                   objects returned by earlier library calls, origin / zero
+                   objects of copies, of zeroed objects and of one another
+  sibling-system   a second composite system of the same dimensions and another
+                   basis lives in the same process; a partner object on it,
+                   built with NON-DEFAULT constructor options, is asked
+                   interleaved with the case's object; constructor with
+                   physicality required and those options
+  re-used-object   two veteran objects (fixed data) live for the whole shard and
+                   are asked in every case, also inside the Settings windows
+  tables-deleted   the documented CompositeSystem.delete_* calls, then verdicts
+  caller-array-reused
+                   the module-level verdict functions (gate.is_tp / gate.is_cp,
+                   now hooked too; matrix_util) get ONE caller-owned array per
+                   shard, refilled with other contents for every call
+Hook keys of verdicts judged while a step is in progress carry the step as a
+suffix (":via-copy", ...), except the known mechanism class "rtol-slack".
+The harness memoises reference sizes by *content* of the raw arrays, never by
+object identity (a setter must not leave a stale reference value behind).
 """
+import hashlib
+import pickle
+
 import numpy as np
 
 from qv import gen, ref
@@ -16,7 +54,10 @@ RULE = ("objects of 4 types x shapes S1,S3,S2,S23 x bases (std, other orthonorma
         "non-physical with one violated constraint of size delta in {0.01,0.1,10,100,1e4}*atol and {1e-3,0.1,1}; every "
         "verdict function evaluated on an atol ladder 1e-13..1e-2 (explicit and via Settings); a case is distinct by "
         "(type,shape,basis,kind,rounded parameters,atol) and non-trivial when the object is boundary or non-physical "
-        "or the tolerance is not the default")
+        "or the tolerance is not the default; each case ends with history steps on the same objects (re-query after other "
+        "calls, Settings windows, copy / set_zero / setters, generate_from_var / arithmetic / pickle / origin / zero "
+        "objects, partner on a sibling composite system with non-default constructor options, shard-long veterans, "
+        "deleted tables, caller-owned arrays re-used for the module-level verdict functions), judged by the same hooks")
 ATOLS = [1e-13, 1e-10, 1e-8, 1e-5, 1e-2]
 ANCHORS = [
     "quara/objects/state.py:State.is_trace_one", "quara/objects/state.py:State.is_positive_semidefinite",
@@ -56,33 +97,23 @@ def shards(tier, seed):
 # ------------------------------------------------------------------ oracle
 
 
-def ref_sizes(obj):
-    """(eq_lo, eq_hi, ineq) reference violation sizes of a quara object.
-    eq has two candidate norms (the statement does not fix one): lo/hi."""
-    B = gen.basis_of(obj.composite_system)
-    t = gen.type_of(obj)
-    d = obj.composite_system.dim
-    if t == "State":
-        v = ref.state_violations(B, obj.vec)
-        return v["eq"], v["eq"], v["ineq"]
-    if t == "Povm":
-        ms = ref.povm_ops(B, obj.vecs)
-        D = sum(ms) - np.eye(d)
-        e1 = float(np.max(np.abs(D)))
-        e2 = float(np.linalg.norm(D, 2))
-        ineq = max(max(ref.psd_violation(m) for m in ms), max(ref.herm_violation(m) for m in ms) / 2)
-        return min(e1, e2), max(e1, e2), ineq
-    hs = obj.hs if t == "Gate" else sum(np.asarray(h) for h in obj.hss)
+def _dg(arrs):
+    """content digest of raw parameter arrays (harness memo key: content, never identity)"""
+    h = hashlib.blake2b(digest_size=12)
+    for a in arrs:
+        a = np.ascontiguousarray(a)
+        h.update(f"{a.dtype}{a.shape}".encode())
+        h.update(a.tobytes())
+    return h.digest()
+
+
+def _tp_sizes(B, hs, d):
+    """two candidate norms of the TP defect (the statement does not fix one): lo/hi"""
     tr = ref.tp_violation(B, hs)  # max_b |Tr E(B_b) - Tr B_b|
     D = ref.dual_identity(B, hs) - np.eye(d)
     e2 = float(np.max(np.abs(D)))
     e3 = tr / np.sqrt(d)
-    eq_lo, eq_hi = min(tr, e2, e3), max(tr, e2, e3)
-    if t == "Gate":
-        ineq = ref.cp_violation(B, obj.hs)
-    else:
-        ineq = max(ref.cp_violation(B, h) for h in obj.hss)
-    return eq_lo, eq_hi, ineq
+    return min(tr, e2, e3), max(tr, e2, e3)
 
 
 def zone(lo, hi, atol):
@@ -96,18 +127,67 @@ def zone(lo, hi, atol):
 class Judge:
     def __init__(self, ctx):
         self.ctx = ctx
-        self.cache = {}
-        self.meta = {}  # id(obj) -> dict(kind=..., basis=...)
+        self.cache = {}  # (id(c_sys), tag, content digest) -> (c_sys, value)
+        self.meta = {}  # cp_judged: default for composite systems not registered in cp_flag
+        self.cp_flag = {}  # id(c_sys) -> (c_sys, bool)
+        self.step = None  # name of the history step in progress (key suffix)
+
+    def _memo(self, cs, tag, arrs, fn):
+        key = (id(cs), tag, _dg(arrs))
+        c = self.cache.get(key)
+        if c is None or c[0] is not cs:
+            if len(self.cache) > 512:
+                self.cache.clear()
+            c = (cs, fn())
+            self.cache[key] = c
+        return c[1]
+
+    def cp_judged(self, cs):
+        c = self.cp_flag.get(id(cs))
+        if c is not None and c[0] is cs:
+            return c[1]
+        return self.meta.get("cp_judged", True)
+
+    def tp_sizes(self, cs, hs):
+        hs = np.asarray(hs)
+        return self._memo(cs, "tp", [hs], lambda: _tp_sizes(gen.basis_of(cs), hs, cs.dim))
+
+    def cp_size(self, cs, hs):
+        hs = np.asarray(hs)
+        return self._memo(cs, "cp", [hs], lambda: ref.cp_violation(gen.basis_of(cs), hs))
 
     def sizes(self, obj):
-        k = id(obj)
-        c = self.cache.get(k)
-        if c is None or c[0] is not obj:
-            c = (obj, ref_sizes(obj))
-            if len(self.cache) > 64:
-                self.cache.clear()
-            self.cache[k] = c
-        return c[1]
+        """(eq_lo, eq_hi, ineq) reference violation sizes of a quara object, from the raw arrays it holds NOW.
+        eq has two candidate norms (the statement does not fix one): lo/hi."""
+        cs = obj.composite_system
+        t = gen.type_of(obj)
+        d = cs.dim
+        if t == "State":
+            vec = obj.vec
+
+            def f():
+                v = ref.state_violations(gen.basis_of(cs), vec)
+                return v["eq"], v["eq"], v["ineq"]
+
+            return self._memo(cs, "State", [vec], f)
+        if t == "Povm":
+            vecs = list(obj.vecs)
+
+            def f():
+                ms = ref.povm_ops(gen.basis_of(cs), vecs)
+                D = sum(ms) - np.eye(d)
+                e1 = float(np.max(np.abs(D)))
+                e2 = float(np.linalg.norm(D, 2))
+                ineq = max(max(ref.psd_violation(m) for m in ms), max(ref.herm_violation(m) for m in ms) / 2)
+                return min(e1, e2), max(e1, e2), ineq
+
+            return self._memo(cs, "Povm", vecs, f)
+        if t == "Gate":
+            lo, hi = self.tp_sizes(cs, obj.hs)
+            return lo, hi, self.cp_size(cs, obj.hs)
+        hss = [np.asarray(h) for h in obj.hss]
+        lo, hi = self.tp_sizes(cs, sum(hss))
+        return lo, hi, max(self.cp_size(cs, h) for h in hss)
 
     def slack_class(self, obj, which, lo, hi, atol):
         """mechanism class of a wrongly accepted equality violation"""
@@ -117,20 +197,26 @@ class Judge:
             return "rtol-slack"
         return "accepts-violation"
 
+    def sfx(self, cls=None):
+        """key suffix naming the history step in progress (the known class rtol-slack keeps its ordinary key)"""
+        if self.step is None or cls == "rtol-slack":
+            return ""
+        return ":" + self.step
+
     def verdict(self, label, obj, which, got, atol, cp_judged=True):
         from quara.settings import Settings
 
         ctx = self.ctx
         atol = Settings.get_atol() if atol is None else atol
+        if which == "ineq" and not cp_judged:
+            ctx.skip(f"{label}")
+            return
         eq_lo, eq_hi, ineq = self.sizes(obj)
         if which == "eq":
             z = zone(eq_lo, eq_hi, atol)
-        elif which == "ineq":
-            if not cp_judged:
-                ctx.skip(f"{label}")
-                return
+        else:
             z = zone(ineq, ineq, atol)
-        info = {"atol": atol, "eq": [eq_lo, eq_hi], "ineq": ineq, "got": bool(got), "type": gen.type_of(obj)}
+        info = {"atol": atol, "eq": [eq_lo, eq_hi], "ineq": ineq, "got": bool(got), "type": gen.type_of(obj), "step": self.step}
         if z == "free":
             ctx.skip(label)
             return
@@ -139,9 +225,10 @@ class Judge:
             ctx.truth(label, True)
             return
         if want:
-            key = f"{label}:rejects-valid"
+            key = f"{label}:rejects-valid{self.sfx()}"
         else:
-            key = f"{label}:{self.slack_class(obj, which, eq_lo, eq_hi, atol)}"
+            cls = self.slack_class(obj, which, eq_lo, eq_hi, atol)
+            key = f"{label}:{cls}{self.sfx(cls)}"
         ctx.truth(label, False, key=key, info=info)
 
     def physical(self, label, obj, got, atol_eq, atol_ineq, cp_judged=True):
@@ -153,9 +240,9 @@ class Judge:
         eq_lo, eq_hi, ineq = self.sizes(obj)
         z1 = zone(eq_lo, eq_hi, a1)
         z2 = zone(ineq, ineq, a2) if cp_judged else "free"
-        info = {"atol": [a1, a2], "eq": [eq_lo, eq_hi], "ineq": ineq, "got": bool(got), "type": gen.type_of(obj)}
+        info = {"atol": [a1, a2], "eq": [eq_lo, eq_hi], "ineq": ineq, "got": bool(got), "type": gen.type_of(obj), "step": self.step}
         if z1 == "accept" and z2 == "accept":
-            ctx.truth(label, bool(got), key=f"{label}:rejects-valid", info=info)
+            ctx.truth(label, bool(got), key=f"{label}:rejects-valid{self.sfx()}", info=info)
         elif z1 == "reject" or z2 == "reject":
             if not got:
                 ctx.truth(label, True)
@@ -163,9 +250,20 @@ class Judge:
                 cls = "accepts-violation"
                 if z1 == "reject" and z2 != "reject":
                     cls = self.slack_class(obj, "eq", eq_lo, eq_hi, a1)
-                ctx.truth(label, False, key=f"{label}:{cls}", info=info)
+                ctx.truth(label, False, key=f"{label}:{cls}{self.sfx(cls)}", info=info)
         else:
             ctx.skip(label)
+
+    def matrix_verdict(self, label, lo, hi, got, a, info):
+        """three-zone verdict of a helper judged directly on the array it was given"""
+        ctx = self.ctx
+        z = zone(lo, hi, a)
+        if z == "free":
+            ctx.skip(label)
+            return
+        ok = bool(got) == (z == "accept")
+        ctx.truth(label, ok, key=f"{label}:" + ("rejects-valid" if z == "accept" else "accepts-violation") + self.sfx(),
+                  info=dict(info, atol=a, got=bool(got), step=self.step))
 
 
 def install(ctx):
@@ -177,7 +275,7 @@ def install(ctx):
 
     def cpj(obj):
         # the Choi formula used by the CP test assumes an orthonormal basis
-        return J.meta.get("cp_judged", True)
+        return J.cp_judged(obj.composite_system)
 
     def mk(which, label, atol_pos=1):
         def post(result, snap, self, *a, **kw):
@@ -210,14 +308,7 @@ def install(ctx):
         if M.ndim != 2 or M.shape[0] != M.shape[1]:
             return
         v = max(ref.psd_violation(M), ref.herm_violation(M) / 2)
-        z = zone(v, max(v, ref.herm_violation(M)), a)
-        if z == "free":
-            ctx.skip("matrix_util.is_positive_semidefinite")
-        else:
-            ok = bool(result) == (z == "accept")
-            ctx.truth("matrix_util.is_positive_semidefinite", ok,
-                      key="matrix_util.is_positive_semidefinite:" + ("rejects-valid" if z == "accept" else "accepts-violation"),
-                      info={"atol": a, "viol": v, "got": bool(result)})
+        J.matrix_verdict("matrix_util.is_positive_semidefinite", v, max(v, ref.herm_violation(M)), result, a, {"viol": v})
 
     def post_herm(result, snap, matrix, atol=None):
         from quara.settings import Settings
@@ -227,17 +318,44 @@ def install(ctx):
         if M.ndim != 2 or M.shape[0] != M.shape[1]:
             return
         v = ref.herm_violation(M)
-        z = zone(v, v, a)
-        if z == "free":
-            ctx.skip("matrix_util.is_hermitian")
-        else:
-            ok = bool(result) == (z == "accept")
-            ctx.truth("matrix_util.is_hermitian", ok,
-                      key="matrix_util.is_hermitian:" + ("rejects-valid" if z == "accept" else "accepts-violation"),
-                      info={"atol": a, "viol": v, "got": bool(result)})
+        J.matrix_verdict("matrix_util.is_hermitian", v, v, result, a, {"viol": v})
 
     hs.function(mutil, "is_positive_semidefinite", post=post_psd)
     hs.function(mutil, "is_hermitian", post=post_herm)
+
+    # module-level gate verdicts: judged on the (composite system, HS matrix) they are given; the reference sizes are
+    # shared (by content) with the object-level hooks, so this costs no second reference computation
+    def _fn_args(a, kw):
+        c_sys = kw.get("c_sys", a[0] if len(a) > 0 else None)
+        m = kw.get("hs", a[1] if len(a) > 1 else None)
+        atol = kw.get("atol", a[2] if len(a) > 2 else None)
+        if c_sys is None or not isinstance(m, np.ndarray) or m.ndim != 2 or np.iscomplexobj(m):
+            return None
+        if m.shape != (c_sys.dim ** 2, c_sys.dim ** 2):
+            return None
+        from quara.settings import Settings
+
+        return c_sys, m, (Settings.get_atol() if atol is None else atol)
+
+    def post_fn_tp(result, snap, *a, **kw):
+        x = _fn_args(a, kw)
+        if x is None:
+            return
+        lo, hi = J.tp_sizes(x[0], x[1])
+        J.matrix_verdict("gate.is_tp", lo, hi, result, x[2], {"eq": [lo, hi]})
+
+    def post_fn_cp(result, snap, *a, **kw):
+        x = _fn_args(a, kw)
+        if x is None:
+            return
+        if not J.cp_judged(x[0]):
+            ctx.skip("gate.is_cp")
+            return
+        v = J.cp_size(x[0], x[1])
+        J.matrix_verdict("gate.is_cp", v, v, result, x[2], {"ineq": v})
+
+    hs.function(Q.gate_mod, "is_tp", post=post_fn_tp)
+    hs.function(Q.gate_mod, "is_cp", post=post_fn_cp)
     return hs, J
 
 
@@ -353,6 +471,405 @@ BKINDS = {"State": ["random", "pure", "rankdef", "mixed"], "Povm": ["random", "p
           "Gate": ["random", "unitary", "depol"], "MProcess": ["random", "projective"]}
 
 
+# ---------------------------------------------------------------- history / combination steps
+
+SIBLING = {"std": "nggm", "nggm": "std", "unnorm": "std", "rot": "nherm", "nherm": "rot"}
+
+# public methods that must not change what an object denotes (called between two queries of the same object)
+OTHER_CALLS = {
+    "*": [("to_var", lambda o: o.to_var()), ("to_stacked_vector", lambda o: o.to_stacked_vector()),
+          ("calc_proj_eq_constraint", lambda o: o.calc_proj_eq_constraint()),
+          ("calc_proj_ineq_constraint", lambda o: o.calc_proj_ineq_constraint()),
+          ("copy", lambda o: o.copy()), ("mul", lambda o: o * 0.5), ("rmul", lambda o: 2.0 * o), ("add", lambda o: o + o),
+          ("sub", lambda o: o - o), ("truediv", lambda o: o / 2.0), ("generate_zero_obj", lambda o: o.generate_zero_obj()),
+          ("generate_origin_obj", lambda o: o.generate_origin_obj()), ("calc_gradient", lambda o: o.calc_gradient(0))],
+    "State": [("to_density_matrix", lambda o: o.to_density_matrix()),
+              ("to_density_matrix_with_sparsity", lambda o: o.to_density_matrix_with_sparsity()),
+              ("calc_eigenvalues", lambda o: o.calc_eigenvalues()), ("is_hermitian", lambda o: o.is_hermitian())],
+    "Povm": [("matrices", lambda o: o.matrices()), ("matrices_with_sparsity", lambda o: o.matrices_with_sparsity()),
+             ("calc_eigenvalues", lambda o: o.calc_eigenvalues()), ("is_hermitian", lambda o: o.is_hermitian()),
+             ("matrix", lambda o: o.matrix(0)), ("vec", lambda o: o.vec(0))],
+    "Gate": [("to_choi_matrix_with_sparsity", lambda o: o.to_choi_matrix_with_sparsity()),
+             ("to_kraus_matrices", lambda o: o.to_kraus_matrices()), ("convert_to_comp_basis", lambda o: o.convert_to_comp_basis()),
+             ("get_basis", lambda o: o.get_basis())],
+    "MProcess": [("to_choi_matrix_with_sparsity", lambda o: o.to_choi_matrix_with_sparsity(0)), ("hs", lambda o: o.hs(0)),
+                 ("to_povm", lambda o: o.to_povm()), ("convert_to_comp_basis", lambda o: o.convert_to_comp_basis())],
+}
+
+
+class _Step:
+    def __init__(self, J, name):
+        self.J, self.name = J, name
+
+    def __enter__(self):
+        self.prev = self.J.step
+        self.J.step = self.name
+
+    def __exit__(self, *a):
+        self.J.step = self.prev
+
+
+class History:
+    """History / combination steps of one shard (see the module docstring). Nothing here is an oracle of its own
+    except: exceptions of verdict calls, monotonicity inside the second ladder, the origin / zero oracles of the first
+    pass applied to derived objects, and the constructor oracle of the first pass applied with non-default options."""
+
+    def __init__(self, ctx, hs, J, t, shape, bk, c_sys, default_atol):
+        Q = gen.q()
+        import quara.utils.matrix_util as mutil
+
+        self.ctx, self.hs, self.J, self.t, self.shape, self.bk = ctx, hs, J, t, shape, bk
+        self.Q, self.mutil, self.cls = Q, mutil, getattr(Q, t)
+        self.c_sys, self.default_atol = c_sys, default_atol
+        self.d = c_sys.dim
+        self.big = shape in ("S2", "S23") and t in ("Gate", "MProcess")
+        self.sib_kind = SIBLING[bk]
+        self.sib = gen.make_csys(gen.SHAPES[shape], kind=self.sib_kind)
+        J.cp_flag[id(c_sys)] = (c_sys, bk != "unnorm")
+        J.cp_flag[id(self.sib)] = (self.sib, self.sib_kind != "unnorm")
+        self.B = {id(c_sys): gen.basis_of(c_sys), id(self.sib): gen.basis_of(self.sib)}
+        self.other_calls = OTHER_CALLS["*"] + OTHER_CALLS[t]
+        # caller-owned arrays, one per shard, refilled for every call
+        self.buf_hs = np.zeros((self.d ** 2, self.d ** 2), dtype=np.float64)
+        self.buf_m = np.zeros((self.d, self.d), dtype=np.complex128)
+        # veterans: built once per shard from the shard-level stream (no case is current here, so a replayed case
+        # rebuilds the same two objects), kept alive and asked in every case
+        rv = ctx.rng(7)
+        self.veterans = []
+        for bkind, viol, delta in ((BKINDS[t][1], "none", 0.0), ("random", "both", 3e-7)):
+            built = self.build(rv, c_sys, 3, bkind, viol, delta, {})
+            if built is not None:
+                self.veterans.append(built[0])
+
+    def step(self, name):
+        return _Step(self.J, name)
+
+    # ------------------------------------------------------------ producing objects (never judged)
+    def produce(self, what, fn, *a, **kw):
+        """an operation that only PRODUCES an object / a state for a history step (copy, set_zero, generate_from_var,
+        +, pickle ...): not judged here (C02 / C03 / C13 judge those); when it raises the step is skipped and counted"""
+        ok, v = self.ctx.attempt(fn, *a, **kw)
+        if not ok:
+            self.ctx.count(f"history:step-unavailable:{what}:{type(v).__name__}")
+            return False, None
+        return True, v
+
+    def raw_of(self, cs, ops):
+        B = self.B[id(cs)]
+        t = self.t
+        if t == "State":
+            return gen.real_coeffs(B, ops["rho"])
+        if t == "Povm":
+            return [gen.real_coeffs(B, x) for x in ops["ms"]]
+        if t == "Gate":
+            return gen.hs_real(B, ops["fns"][0])
+        return [gen.hs_real(B, f) for f in ops["fns"]]
+
+    def build(self, rng, cs, m, bkind, viol, delta, opts):
+        ops = build_ops(self.t, self.d, m, rng, bkind, viol, delta)
+        raw = self.raw_of(cs, ops)
+        ok, o = self.ctx.attempt(self.cls, cs, raw, is_physicality_required=False, **opts)
+        if not ok:
+            self.ctx.violation(f"{self.t}.ctor:" + self.ctx.exc_key(o) + self.J.sfx(), {"basis": self.bk, "options": sorted(opts)})
+            return None
+        return o, ops, raw
+
+    def draw(self, rng, cs, m, opts):
+        bkind = str(rng.choice(BKINDS[self.t]))
+        viol = str(rng.choice(["none", "none", "eq", "ineq", "both"]))
+        delta = pick_delta(rng, float(rng.choice(ATOLS))) if viol != "none" else 0.0
+        return self.build(rng, cs, m, bkind, viol, delta, opts)
+
+    def options(self, rng, m):
+        """non-default values of the constructor options (none of them enters the definition of physicality)"""
+        o = {}
+        for name, val, p in (("on_para_eq_constraint", False, 0.6), ("is_estimation_object", False, 0.5),
+                             ("on_algo_eq_constraint", False, 0.4), ("on_algo_ineq_constraint", False, 0.4),
+                             ("mode_proj_order", "ineq_eq", 0.5), ("eps_proj_physical", 1e-6, 0.5),
+                             ("eps_truncate_imaginary_part", 1e-7, 0.5)):
+            if rng.random() < p:
+                o[name] = val
+        if self.t == "MProcess":
+            if m == 4 and rng.random() < 0.7:
+                o["shape"] = (2, 2)
+            elif rng.random() < 0.4:
+                o["shape"] = (m, 1)
+            if rng.random() < 0.5:
+                o["mode_sampling"] = True
+                o["random_seed_or_generator"] = 5
+            if rng.random() < 0.5:
+                o["eps_zero"] = 1e-6
+        if not o:
+            o["on_para_eq_constraint"] = False
+        return o
+
+    # ------------------------------------------------------------ asking (the hooks judge)
+    def ask(self, o, a, a2, mode=0):
+        """verdicts of one object, judged by the hooks; an exception is a violation.
+        mode 0: is_physical(a, a2) positional; 1: is_physical by keyword (reversed); 2: inequality then equality verdict;
+        3: equality (keyword) then inequality (positional); 4: all three; 5: inequality, is_physical by keyword"""
+        ctx, t = self.ctx, self.t
+        calls = {
+            "phys": lambda: o.is_physical(a, a2),
+            "physkw": lambda: o.is_physical(atol_ineq_const=a2, atol_eq_const=a),
+            "eq": lambda: o.is_eq_constraint_satisfied(a),
+            "eqkw": lambda: o.is_eq_constraint_satisfied(atol=a),
+            "ineq": lambda: o.is_ineq_constraint_satisfied(a),
+            "ineqkw": lambda: o.is_ineq_constraint_satisfied(atol=a),
+        }
+        got = {}
+        for nm in (("phys",), ("physkw",), ("ineqkw", "eq"), ("eqkw", "ineq"), ("ineqkw", "physkw", "eq"), ("ineqkw", "physkw"))[mode]:
+            ok, v = ctx.attempt(calls[nm])
+            if not ok:
+                ctx.violation(f"{t}.verdict:" + ctx.exc_key(v) + self.J.sfx(), {"basis": self.bk, "fn": nm, "step": self.J.step})
+                got[nm.replace("kw", "")] = None
+            else:
+                got[nm.replace("kw", "")] = bool(v)
+        return got
+
+    def ask_default(self, o, which=("phys",)):
+        """default-argument path (global tolerance read at call time)"""
+        ctx, t = self.ctx, self.t
+        for nm in which:
+            call = {"ineq": o.is_ineq_constraint_satisfied, "phys": o.is_physical, "eq": o.is_eq_constraint_satisfied}[nm]
+            ok, v = ctx.attempt(call)
+            if not ok:
+                ctx.violation(f"{t}.verdict:" + ctx.exc_key(v) + self.J.sfx(), {"basis": self.bk, "fn": nm, "step": self.J.step})
+
+    def derived(self, o, depth=1):
+        """origin / zero objects derived from o (identity-first orthonormal bases only: documented assumption):
+        the first pass' two oracles, then the library's own verdicts of those objects (hooks)"""
+        cs = o.composite_system
+        if not (bool(cs.is_orthonormal_hermitian_0thprop_identity) and self.J.cp_judged(cs)):
+            return
+        ctx, t, J = self.ctx, self.t, self.J
+        with self.hs.paused():
+            ok4, org = ctx.attempt(o.generate_origin_obj)
+            ok5, zer = ctx.attempt(o.generate_zero_obj)
+        if ok4:
+            so = J.sizes(org)
+            ctx.num(f"{t}.origin-physical", max(so[1], so[2]), 1e-12, 1e-9, key=f"{t}.origin:not-physical{J.sfx()}", info={"sizes": list(so), "step": J.step})
+            self.ask_default(org)
+        else:
+            ctx.violation(f"{t}.origin:" + ctx.exc_key(org) + J.sfx(), {"step": J.step})
+        if ok5:
+            rp = gen.raw_params(zer)
+            z = np.hstack([np.ravel(r) for r in (rp if isinstance(rp, list) else [rp])])
+            ctx.num(f"{t}.zero-is-zero", float(np.max(np.abs(z))) if z.size else 0.0, 0.0, 1e-300, key=f"{t}.zero:not-zero{J.sfx()}")
+            self.ask(zer, 1e-5, 1e-8, mode=3)
+        else:
+            ctx.violation(f"{t}.zero:" + ctx.exc_key(zer) + J.sfx(), {"step": J.step})
+        if depth > 0 and ok4 and ok5:
+            # origin of the zero object, zero of the origin object
+            self.derived(zer if depth % 2 else org, depth - 1)
+
+    def judge_ctor(self, probe, sizes, a, ok3, val, orthonormal):
+        """constructor with physicality required: succeeds exactly for physical objects (oracle of the first pass)"""
+        ctx, t, J = self.ctx, self.t, self.J
+        eq_lo, eq_hi, ineq = sizes
+        z1 = zone(eq_lo, eq_hi, a)
+        z2 = zone(ineq, ineq, a) if orthonormal else "free"
+        info = {"atol": a, "sizes": list(sizes), "raised": None if ok3 else type(val).__name__, "step": J.step}
+        if z1 == "accept" and z2 == "accept":
+            ctx.truth(f"{t}.ctor-required", ok3, key=f"{t}.ctor:rejects-physical{J.sfx()}", info=info)
+        elif z1 == "reject" or z2 == "reject":
+            cls_key = "accepts-violation"
+            if z1 == "reject" and z2 != "reject":
+                cls_key = J.slack_class(probe, "eq", eq_lo, eq_hi, a)
+            if ok3:
+                ctx.truth(f"{t}.ctor-required", False, key=f"{t}.ctor:{cls_key}{J.sfx(cls_key)}", info=info)
+            else:
+                ctx.truth(f"{t}.ctor-required", isinstance(val, ValueError),
+                          key=f"{t}.ctor:raises-{type(val).__name__}-not-ValueError{J.sfx()}", info=info)
+        else:
+            ctx.skip(f"{t}.ctor-required")
+
+    def call_fn(self, label, fn, *a, **kw):
+        ok, v = self.ctx.attempt(fn, *a, **kw)
+        if not ok:
+            self.ctx.violation(f"{label}:" + self.ctx.exc_key(v) + self.J.sfx(), {"basis": self.bk, "step": self.J.step})
+
+    def delete_tables(self, cs):
+        """the documented memory-saving calls of CompositeSystem ('If you use X again, call X again')"""
+        names = ["delete_basis_T_sparse", "delete_basisconjugate_sparse"]
+        if self.t in ("Gate", "MProcess"):
+            names += ["delete_basis_basisconjugate_T_sparse", "delete_basisconjugate_basis_sparse",
+                      "delete_basis_basisconjugate_T_sparse_from_1", "delete_basishermitian_basis_T_from_1",
+                      "delete_dict_from_hs_to_choi", "delete_dict_from_choi_to_hs"]
+        for n in names:
+            f = getattr(cs, n, None)
+            if f is not None:
+                self.produce(n, f)
+
+    # ------------------------------------------------------------ one case
+    def run(self, i, obj, ops, a_first, req_obj):
+        """history steps of one case. Cost control: the re-query, one veteran and the caller-array step run in every
+        case, the other steps in one case of three (groups A / B / C by case index); on the two-subsystem gate /
+        measurement-process shards (12 cases, a generic-basis TP verdict costs 0.1 s) every step asks one verdict
+        only ('lean')."""
+        from quara.settings import Settings
+
+        ctx, J, t, Q = self.ctx, self.J, self.t, self.Q
+        rng = ctx.rng(1)
+        grp = i % 3
+        lean = self.big
+        atols = [float(x) for x in rng.permutation(ATOLS)]
+        m_obj = len(ops["ms"]) if t == "Povm" else (len(ops["fns"]) if t == "MProcess" else 0)
+        ctx.count("history:cases")
+
+        # (a) other public calls on the same object, then its verdicts again: descending tolerances, inequality before
+        #     equality, is_physical with two different tolerances by keyword
+        with self.step("second-call"):
+            for k in rng.permutation(len(self.other_calls))[:3]:
+                name, fn = self.other_calls[int(k)]
+                self.produce("other-call:" + name, fn, obj)
+            seen_false = {"eq": False, "ineq": False}
+            for n, a in enumerate(sorted(atols[:1 if lean else 2], reverse=True)):
+                got = self.ask(obj, a, atols[3], mode=5 if lean else (4 if n == 0 else 2))
+                for nm in ("eq", "ineq"):
+                    if got.get(nm) is None:
+                        continue
+                    ctx.truth(f"{t}.monotone-in-atol", not (got[nm] and seen_false[nm]),
+                              key=f"{t}.{nm}:true-turns-false-when-atol-grows:second-call", info={"atol": a})
+                    if not got[nm]:
+                        seen_false[nm] = True
+
+        # (c) a veteran of the shard, between the queries of this case's objects
+        V = self.veterans[i % len(self.veterans)] if self.veterans else None
+        if V is not None:
+            with self.step("re-used-object"):
+                self.ask(V, atols[i % 5], atols[(i + 1) % 5], mode=(i // 2) % 2 if lean else i % 4)
+
+        if grp == 0:
+            # (a) two more windows of the global setting on the same object (and the veteran)
+            with self.step("second-setting"):
+                try:
+                    for n, b in enumerate([x for x in atols if x != a_first][:2]):
+                        Settings.set_atol(b)
+                        self.ask_default(obj, (("phys",) if n == 0 else ("eq",)) if lean else (("phys", "ineq") if n == 0 else ("eq", "phys")))
+                        if V is not None and n == 1 and not lean:
+                            self.ask_default(V)
+                finally:
+                    Settings.set_atol(self.default_atol)
+            # setters that have nothing to do with physicality, between two queries of the same object
+            with self.step("after-setter"):
+                mpo, eti = obj.mode_proj_order, obj.eps_truncate_imaginary_part
+                self.produce("set_mode_proj_order", obj.set_mode_proj_order, "ineq_eq" if mpo == "eq_ineq" else "eq_ineq")
+                self.produce("eps_truncate_imaginary_part", setattr, obj, "eps_truncate_imaginary_part", 1e-9)
+                if t == "MProcess":
+                    self.produce("set_mode_sampling", obj.set_mode_sampling, True, 7)
+                self.ask(obj, atols[1], atols[4], mode=1)
+                self.produce("set_mode_proj_order", obj.set_mode_proj_order, mpo)
+                self.produce("eps_truncate_imaginary_part", setattr, obj, "eps_truncate_imaginary_part", eti)
+                if t == "MProcess":
+                    self.produce("set_mode_sampling", obj.set_mode_sampling, False)
+
+        if grp == 1:
+            # (b) copy() or the object the constructor returned with physicality required: asked, set_zero(), asked
+            #     again, its copy asked; origin / zero objects of both stages
+            src, name = None, "via-copy"
+            if req_obj is not None and rng.random() < 0.5:
+                src, name = req_obj, "ctor-required-object"
+            else:
+                ok, src = self.produce("copy", obj.copy)
+            if src is not None:
+                with self.step(name):
+                    self.ask(src, atols[0], atols[1], mode=0)
+                    self.derived(src)
+                ok, _ = self.produce("set_zero", src.set_zero)
+                if ok:
+                    with self.step("after-set_zero"):
+                        self.ask(src, atols[0], atols[1], mode=0)
+                        if not lean:
+                            self.ask(src, atols[2], atols[2], mode=3)
+                        ok, c2 = self.produce("copy", src.copy)
+                        if ok:
+                            self.ask(c2, atols[1], atols[0], mode=1)
+                        self.derived(src, depth=0)
+
+        pm = None
+        if grp == 2:
+            # (b) objects returned by earlier library calls
+            ok, g = self.produce("generate_from_var", lambda: obj.generate_from_var(obj.to_var()))
+            if ok:
+                with self.step("via-generate_from_var"):
+                    self.ask(g, atols[2], atols[0], mode=1)
+            pm = self.draw(rng, self.c_sys, m_obj, {})
+            if pm is not None:
+                w = float(rng.uniform(0.2, 0.8))
+                ok, r = self.produce("arithmetic", lambda: obj * w + (1.0 - w) * pm[0])
+                with self.step("via-arithmetic"):
+                    if not lean:
+                        self.ask(pm[0], atols[3], atols[1], mode=2)
+                    if ok:
+                        self.ask(r, atols[3], atols[1], mode=0)
+                        if not lean:
+                            self.ask(obj, atols[3], atols[1], mode=3)
+            if self.d == 2 or (self.d == 3 and (t in ("State", "Povm") or i % 4 == 2)):
+                ok, pk = self.produce("pickle", lambda: pickle.loads(pickle.dumps(obj)))
+                if ok:
+                    pcs = pk.composite_system
+                    J.cp_flag[id(pcs)] = (pcs, J.cp_judged(self.c_sys))
+                    with self.step("via-pickle"):
+                        self.ask(pk, atols[4], atols[2], mode=4)
+                    J.cp_flag.pop(id(pcs), None)
+
+        # (c)+(d) partner with non-default constructor options on the sibling composite system (same dimensions,
+        #     other basis), asked interleaved with this case's object; constructor with physicality required
+        ps = None
+        if grp == 0 or (grp == 2 and not lean):
+            m2 = int(rng.integers(2, 6)) if t in ("Povm", "MProcess") else 0
+            opts = self.options(rng, m2)
+            with self.step("sibling-system"):
+                ps = self.draw(rng, self.sib, m2, opts)
+                if ps is not None:
+                    a = atols[0]
+                    if not lean:
+                        self.ask(ps[0], a, atols[2], mode=2)
+                        self.ask(obj, a, a, mode=0)
+                    self.ask(ps[0], a, atols[2], mode=1)
+                    if grp == 2:
+                        self.derived(ps[0], depth=0)
+                    b = atols[3]
+                    try:
+                        Settings.set_atol(b)
+                        ok3, val = ctx.attempt(self.cls, self.sib, ps[2], is_physicality_required=True, **opts)
+                        self.judge_ctor(ps[0], J.sizes(ps[0]), b, ok3, val, self.sib_kind != "unnorm")
+                        if ok3 and not lean:
+                            self.ask_default(val)
+                    finally:
+                        Settings.set_atol(self.default_atol)
+
+        # documented table deletion on the composite systems, then the same objects again
+        every = {"S1": 4, "S3": 8}.get(self.shape, 0) if t in ("Gate", "MProcess") else 3
+        if (every and i % every == 2) or (not every and i == 2 and (self.shape == "S2" or ctx.tier == "thorough")):
+            with self.step("tables-deleted"):
+                self.delete_tables(self.c_sys)
+                self.ask(obj, atols[0], atols[2], mode=3)
+                if V is not None:
+                    self.ask(V, atols[1], atols[1], mode=0)
+                if ps is not None and not self.big:
+                    self.delete_tables(self.sib)
+                    self.ask(ps[0], atols[0], atols[2], mode=0)
+
+        # (c) module-level verdict functions on ONE caller-owned array per shard, refilled for every call
+        with self.step("caller-array-reused"):
+            jobs = [(self.c_sys, obj, ops)] + ([(self.c_sys, pm[0], pm[1])] if pm else []) + ([(self.sib, ps[0], ps[1])] if ps else [])
+            if lean:
+                jobs = jobs[-1:]
+            for k, (cs, o, oo) in enumerate(jobs):
+                a = atols[(k + 2) % 5]
+                if t in ("Gate", "MProcess"):
+                    np.copyto(self.buf_hs, o.hs if t == "Gate" else o.hss[(i + k) % len(o.hss)])
+                    self.call_fn("gate.is_cp", Q.gate_mod.is_cp, cs, self.buf_hs, atol=a)
+                    self.call_fn("gate.is_tp", Q.gate_mod.is_tp, cs, self.buf_hs, a)
+                else:
+                    mats = [oo["rho"]] if t == "State" else oo["ms"]
+                    np.copyto(self.buf_m, mats[(i + k) % len(mats)])
+                    self.call_fn("matrix_util.is_positive_semidefinite", self.mutil.is_positive_semidefinite, self.buf_m, a)
+                    self.call_fn("matrix_util.is_hermitian", self.mutil.is_hermitian, self.buf_m, atol=a)
+
+
 def run_shard(ctx):
     from quara.settings import Settings
 
@@ -385,6 +902,7 @@ def run_shard(ctx):
     J.meta["cp_judged"] = orthonormal
     cls = getattr(Q, t)
     default_atol = Settings.get_atol()
+    hist = History(ctx, hs, J, t, shape, bk, c_sys, default_atol)
     try:
         for i in ctx.cases(p["n"]):
             rng = ctx.rng()
@@ -437,6 +955,7 @@ def run_shard(ctx):
                     prev[nm] = got[nm]
             # --- same through the global setting (restored), incl. default-argument path
             a = float(rng.choice(ATOLS))
+            req_obj = None
             try:
                 Settings.set_atol(a)
                 ctx.attempt(obj.is_physical)
@@ -447,6 +966,7 @@ def run_shard(ctx):
                 z1 = zone(eq_lo, eq_hi, a)
                 z2 = zone(ineq, ineq, a) if orthonormal else "free"
                 ok3, val = ctx.attempt(cls, c_sys, *args, is_physicality_required=True)
+                req_obj = val if ok3 else None
                 info = {"atol": a, "sizes": list(sizes), "raised": None if ok3 else type(val).__name__}
                 if z1 == "accept" and z2 == "accept":
                     ctx.truth(f"{t}.ctor-required", ok3, key=f"{t}.ctor:rejects-physical", info=info)
@@ -469,7 +989,7 @@ def run_shard(ctx):
                     ok4, org = ctx.attempt(obj.generate_origin_obj)
                     ok5, zer = ctx.attempt(obj.generate_zero_obj)
                 if ok4:
-                    so = ref_sizes(org)
+                    so = J.sizes(org)
                     ctx.num(f"{t}.origin-physical", max(so[1], so[2]), 1e-12, 1e-9, key=f"{t}.origin:not-physical", info={"sizes": list(so)})
                 else:
                     ctx.violation(f"{t}.origin:" + ctx.exc_key(org), {})
@@ -478,6 +998,8 @@ def run_shard(ctx):
                     ctx.num(f"{t}.zero-is-zero", float(np.max(np.abs(z))) if z.size else 0.0, 0.0, 1e-300, key=f"{t}.zero:not-zero")
                 else:
                     ctx.violation(f"{t}.zero:" + ctx.exc_key(zer), {})
+            # --- history / combination steps on the same objects (own RNG stream)
+            hist.run(i, obj, ops, a, req_obj)
     finally:
         Settings.set_atol(default_atol)
         hs.uninstall()
